@@ -334,7 +334,10 @@ Definition embed_buffer (st : est) (b_align : Z) (data : list Z) (align flags : 
   let nested := negb (is_top_buffer st) in
   match align_buffer_end st align b_align nested with
   | None => None
-  | Some (al, es, st1) =>
+  | Some (al, es, st0) =>
+    (* set_min_align(B, align): the enclosing buffer reports at least the embedded buffer's alignment (fix f496f3b,
+       fixes/C15-embed-buffer-min-align.patch; before it min_align was left unchanged) *)
+    let st1 := set_min_align st0 al in
     let size := lenZ data in
     let pad := front_pad st1 (u32 (size + (if with_size then 4 else 0))) al in
     match emit_front st1 ((if nested then le32 (u32 (size + pad)) else []) ++ data ++ zeros pad) with
